@@ -34,6 +34,25 @@ def r1(ctx):
                 t = not t
             flag = (c["local"], t, a)
     ctx.count()
+    if flag is None:
+        # sibling idiom: membership tests instead of a flag loop - `!set.contains("host") && !set.contains(":authority")`
+        conds = [(a, c, truth) for a, s, c, truth in guard_conditions(b, e[0]) if c["kind"] != "discr"]
+        names = set()
+        okm = bool(conds)
+        for a, c, truth in conds:
+            if c["kind"] == "call" and re.search(r"(HashSet::<T, S, A>|BTreeSet::<T, A>|slice::<impl \[T\]>|Vec::<T, A>)::contains$", c["callee"]) and truth is False:
+                t = c["term"]
+                coll, key = b.slice_op(t["args"][0]), b.slice_op(t["args"][1])
+                cv = [v_ for v_ in key.const_values() if isinstance(v_, str)]
+                lossy = coll.has_call(r"Iterator::(filter|filter_map|skip|take|step_by|skip_while|take_while)$|to_(ascii_)?(lower|upper)case$|trim\w*$")
+                if signed_headers_of_params(b, coll) and len(cv) == 1 and not key.params and not lossy:
+                    names.add(cv[0])
+                    continue
+            okm = False
+        if okm and names == {"host", ":authority"}:
+            yield PASS("C05-R1", "get_auth_parameters/host-guard", "Err(SignatureDoesNotMatch(MSG_HOST_AUTHORITY_MUST_BE_SIGNED)) iff neither \"host\" nor \":authority\" is a member of the signed-header list", [site(b, e[0], "Err")])
+            yield PASS("C05-R1", "get_auth_parameters/host-flag", "membership tests on the signed-header list itself (no flag)", [])
+            return
     if flag is None or flag[1] is not False:
         yield VIOL("C05-R1", "get_auth_parameters/host-guard", "the host error exit is not taken exactly when the found-host flag is false", where=b.span_of_block(e[0]))
         return
@@ -128,8 +147,8 @@ def requirement_sites(b):
             t = c["term"]
             cal = c["callee"]
             kind = None
-            if re.search(r"slice::<impl \[T\]>::contains$|Vec::<T, A>::contains$", cal):
-                kind = "contains"
+            if re.search(r"slice::<impl \[T\]>::contains$|Vec::<T, A>::contains$|HashSet::<T, S, A>::contains$|BTreeSet::<T, A>::contains$", cal):
+                kind = "contains"  # the list itself or a set built from it (same membership)
             elif re.search(r"str>::starts_with$", cal):
                 kind = "starts_with"
             elif re.search(r"HashMap::<K, V, S, A>::contains_key$", cal):
@@ -255,8 +274,11 @@ def r4(ctx):
     e = [x for x in err_sites(b, "SignatureDoesNotMatch") if b.slice_op(x[2]["rv"]["ops"][0]).has_const_def(r"MSG_HOST_AUTHORITY_MUST_BE_SIGNED$")]
     hostdec = None
     if e:
-        for a, s in b.control_deps().get(e[0][0], ()):
-            hostdec = a
+        # the decision may be a chain (`!has("host") && !has(":authority")`): its first test is the one every path meets
+        gs = [a for a, s_, c, tr in guard_conditions(b, e[0][0]) if c["kind"] == "call" and re.search(r"::contains$", c["callee"])] or [a for a, s_ in b.control_deps().get(e[0][0], ())]
+        for a in gs:
+            if hostdec is None or b.dominates(a, hostdec):
+                hostdec = a
     if hostdec is None or not b.dominates(hostdec, ok[0]):
         missing.append("host rule")
     if missing:
